@@ -171,4 +171,33 @@ pub fn generate_plain(opts: &Opts, sink: &mut CaseSink) {
     }
 }
 
-pub const RULE: &str = "cases = corpus (F10 history) + random delivery orders for the two-input Start with one cached side: 1..3 side-input replicas (empty / one / many batches), loop side with 1 replica (50%) or 2..3, 1..4 rounds, every interleaving respecting per-sender order and round structure; non-trivial: >=2 rounds and >=4 deliveries; distinct = distinct case terms";
+/// whole jobs on local(1): a replay loop whose body zips the loop stream with a side input
+/// defined outside the loop (longer, shorter or as long as the loop stream)
+pub fn generate_zip_loops(opts: &Opts, sink: &mut CaseSink) {
+    use renoir::{RuntimeConfig, StreamContext};
+    let shapes: Vec<(i64, i64, usize)> = if opts.thorough {
+        vec![(3, 5, 3), (5, 3, 3), (4, 4, 2), (1, 6, 4), (6, 1, 2), (10, 25, 3), (0, 3, 2), (3, 0, 2)]
+    } else { vec![(3, 5, 3), (5, 3, 3), (4, 4, 2), (1, 6, 4)] };
+    for (n, m, rounds) in shapes {
+        let r = crate::script::catch(move || {
+            let env = StreamContext::new(RuntimeConfig::local(1).unwrap());
+            let side = env.stream_iter(100..100 + m).shuffle();
+            let st = env.stream_iter(1..1 + n).shuffle().replay(
+                rounds,
+                0i64,
+                move |s, _| s.zip(side).map(|(a, b): (i64, i64)| a * 1000 + b),
+                |d: &mut i64, x: i64| *d += x,
+                |s: &mut i64, d: i64| *s += d,
+                |_s: &mut i64| true,
+            ).collect_vec();
+            env.execute_blocking();
+            st.get().and_then(|v| v.first().copied())
+        });
+        let st = r.unwrap_or(None);
+        sink.count("zip_with_side_input_in_loop");
+        sink.push(format!("(XZipLoop {} {} {} {})", n, m, rounds, match st { Some(v) => format!("(Some {})", if v < 0 { format!("({v})") } else { v.to_string() }), None => "None".into() }),
+                  json!({"kind": "replay loop zipping the loop stream with a side input, local(1)", "loop_stream": n, "side_input": m, "rounds": rounds, "final_state": st}), true);
+    }
+}
+
+pub const RULE: &str = "cases = corpus (F10 history) + random delivery orders for the two-input Start with one cached side: 1..3 side-input replicas (empty / one / many batches), loop side with 1 replica (50%) or 2..3, 1..4 rounds, every interleaving respecting per-sender order and round structure (a quarter with adaptive batching and expiring timed waits); whole jobs on local(1): replay loops zipping the loop stream with a longer / shorter / equal side input; non-trivial: >=2 rounds and >=4 deliveries; distinct = distinct case terms";
